@@ -89,7 +89,7 @@ ITEMS = [
          proofs=[dict(at='start', text='reveal_strlit(" "); lemma_replaced2_break_free(comment@); assert(" "@ =~= seq![\' \']);')],
          ensures=[('C20:staged_comment_has_no_line_break', 'break_free(r@)')],
          canaries=['C20:staged_comment_has_no_line_break']),
-    dict(src='src/wrapping.rs', path='fn first_line_leading_spaces', props=['C12', 'C01'],
+    dict(src='src/wrapping.rs', path='fn first_line_leading_spaces', props=['C12', 'C20', 'C01'],
          loop_rewrites=[(1, 'split_lf')],
          rewrites=[(r"\b(\w+)\.trim_start_matches\(' '\)", r"str_trim_start_spaces(\1)", None, 'R8'),
                    (r'\b(\w+)\.len\(\) - (\w+(?:\([^()]*\))?)\.len\(\)', r'str_len_diff(\1, \2)', None, 'R8'),
